@@ -13,29 +13,29 @@ import (
 // Thin wrappers around the unexported option parsers for the verification harness
 // (built only with -tags verif). No behaviour of its own.
 
-func VerifParsePortRange(s string) (*scan.PortRange, error) { return parsePortRange(s) }
+func VerifC18ParsePortRange(s string) (*scan.PortRange, error) { return parsePortRange(s) }
 
-func VerifParsePortRanges(s string) ([]*scan.PortRange, error) { return parsePortRanges(s) }
+func VerifC18ParsePortRanges(s string) ([]*scan.PortRange, error) { return parsePortRanges(s) }
 
-func VerifParsePortsFile(open func() (io.ReadCloser, error)) ([]*scan.PortRange, error) {
+func VerifC18ParsePortsFile(open func() (io.ReadCloser, error)) ([]*scan.PortRange, error) {
 	return parsePortsFile(open)
 }
 
-func VerifParseRateLimit(s string) (int, time.Duration, error) { return parseRateLimit(s) }
+func VerifC18ParseRateLimit(s string) (int, time.Duration, error) { return parseRateLimit(s) }
 
-func VerifParsePacketPayload(s string) ([]byte, error) { return parsePacketPayload(s) }
+func VerifC18ParsePacketPayload(s string) ([]byte, error) { return parsePacketPayload(s) }
 
-func VerifParseIPFlags(s string) (uint8, error) { return parseIPFlags(s) }
+func VerifC18ParseIPFlags(s string) (uint8, error) { return parseIPFlags(s) }
 
-func VerifParseExcludeFile(open func() (io.ReadCloser, error)) (scan.IPContainer, error) {
+func VerifC18ParseExcludeFile(open func() (io.ReadCloser, error)) (scan.IPContainer, error) {
 	return parseExcludeFile(open)
 }
 
-func VerifParseTCPFlags(s string) ([]string, error) { return parseTCPFlags(s) }
+func VerifC18ParseTCPFlags(s string) ([]string, error) { return parseTCPFlags(s) }
 
-// VerifTCPFlagOptions maps parsed flag names to packet filler options exactly as the RunE closure
+// VerifC18TCPFlagOptions maps parsed flag names to packet filler options exactly as the RunE closure
 // of newTCPFlagsCmd does (one table lookup per name, in order).
-func VerifTCPFlagOptions(flags []string) []tcp.PacketFillerOption {
+func VerifC18TCPFlagOptions(flags []string) []tcp.PacketFillerOption {
 	var opts []tcp.PacketFillerOption
 	for _, flag := range flags {
 		opts = append(opts, tcpPacketFlagOptions[flag])
@@ -43,8 +43,8 @@ func VerifTCPFlagOptions(flags []string) []tcp.PacketFillerOption {
 	return opts
 }
 
-// VerifTCPFlagNames returns the keys of the option table.
-func VerifTCPFlagNames() []string {
+// VerifC18TCPFlagNames returns the keys of the option table.
+func VerifC18TCPFlagNames() []string {
 	names := make([]string, 0, len(tcpPacketFlagOptions))
 	for k := range tcpPacketFlagOptions {
 		names = append(names, k)
